@@ -278,6 +278,20 @@ def opSteps (j : Json) : Except String Json := do
       ("cost_same", Json.bool (st'.cost == v)),
       ("wta", valGridToJson ((laterDisparity st').1.map (fun r => r.map optVal)))]
 
+/-- `allocate_confidence_map` alone -/
+def opAllocate (j : Json) : Except String Json := do
+  let n ← field j "name" >>= nameOfJson
+  let m ← field j "map" >>= valGridOfJson
+  let cvBands ← optBandsOfJson (fieldD j "cv_bands" Json.null)
+  let dispKind ← strOfJson (fieldD j "disp_kind" (Json.str "empty"))
+  let dispBands ← optBandsOfJson (fieldD j "disp_bands" Json.null)
+  let dispDS : DispDS := if dispKind == "none" then .none else .ds dispBands
+  let (d, c) := allocate n m dispDS cvBands
+  let dispOut := match d with
+    | .none => Json.str "none"
+    | .ds bs => optBandsToJson bs
+  return mkObj [("cv_bands", optBandsToJson c), ("disp_bands", dispOut)]
+
 def opIndicator (j : Json) : Except String Json := do
   let n ← field j "name" >>= nameOfJson
   return mkObj [("model", nameToJson (indicatorOf n)), ("spec", nameToJson (Spec.suffixOf n))]
@@ -292,6 +306,7 @@ def handle (op : String) (j : Json) : Except String Json :=
   | "C12.std" => opStd j
   | "C12.steps" => opSteps j
   | "C12.indicator" => opIndicator j
+  | "C12.allocate" => opAllocate j
   | _ => throw s!"unknown op {op}"
 
 end Pandora.Driver.C12
